@@ -370,6 +370,20 @@ fn handle(req: &Value) -> Value {
                 },
             }
         }
+        "reuse" => {
+            // one compiled expression searched on docs[0] then docs[1]  vs  a fresh expression on docs[1]
+            let e = req["expr"].as_str().unwrap();
+            let x = match jmespath::compile(e) { Ok(x) => x, Err(e) => return err_json("compile-err", &e) };
+            let _ = x.search(to_var(&req["docs"][0]));
+            let used = x.search(to_var(&req["docs"][1]));
+            let fresh = jmespath::compile(e).unwrap().search(to_var(&req["docs"][1]));
+            let s = |r: &Result<Rcvar, JmespathError>| match r { Ok(v) => format!("{:?}", v), Err(e) => format!("ERR {:?}", e.reason) };
+            json!({"kind": "ok", "equal": s(&used) == s(&fresh), "used": s(&used), "fresh": s(&fresh)})
+        }
+        "compile_default" => match jmespath::compile(req["expr"].as_str().unwrap()) {
+            Ok(x) => json!({"kind": "ok", "ast": format!("{:?}", x.as_ast())}),
+            Err(e) => err_json("compile-err", &e),
+        },
         "compile" => match jmespath::parse(req["expr"].as_str().unwrap()) {
             Ok(ast) => json!({"kind": "ok", "ast": format!("{:?}", ast)}),
             Err(e) => err_json("compile-err", &e),
